@@ -15,15 +15,22 @@ def strip_ts(msg):
 
 
 # --------------------------------------------------------------------------------- scenario
-def add_tail(R, scn):
+def add_tail(R, scn, kinds=None):
     """how the connection ends (C20): an honoured close request as the last line, the peer closing / resetting after a prefix
     of the bytes, or the k-th write failing; with an I/O handler absent / returning True / returning False"""
-    tail = R.choice([None, "close", "close", "eof", "reset", "wfail"])
+    tail = R.choice(kinds or [None, "close", "close", "close-first", "eof", "reset", "wfail"])
     scn["tail"] = tail
     scn["io_handler"] = R.choice(["absent", True, False])
     scn["probe"] = False
     if tail == "close":
         scn["chunks"] = scn["chunks"] + ["0|CLOSE%s\r\n" % R.choice(["", "|S|reason|S|shutdown"])]
+    elif tail == "close-first":
+        # the Proxy Adapter closes at once: the close request is the only line, often readable at connect time (close packets
+        # are honoured before the init request too)
+        scn["chunks"] = ["0|CLOSE%s\r\n" % R.choice(["", "|S|reason|S|shutdown"])]
+        scn["requests"] = []
+        scn["early"] = R.random() < 0.7
+        scn["tail"] = tail = "close"
     elif tail in ("eof", "reset"):
         stream = "".join(scn["chunks"])
         cut = R.choice([0, len(stream), R.randrange(0, len(stream) + 1), len("1|DPI|S|ARI.version|S|1.9.1\r\n")])
